@@ -417,4 +417,74 @@ theorem certInv_runN (P : Params) (O : Oracles) (TC : Table) (hO : ∀ k, ∃ i,
     · rw [iter_go P O _ hgo]; exact certInv_finish P O TC hO _ (certInv_runN P O TC hO n)
     · rw [iter_stop P O _ hgo]; exact certInv_runN P O TC hO n
 
+/-! ### the certifying multiplier is non-negative -/
+
+theorem projLam_nonneg (X : Ctx) (lam : List Rat) (h : ∀ x ∈ lam, 0 ≤ x) (j : Nat) : 0 ≤ projLam X lam j := by
+  unfold projLam projectIf
+  split
+  · exact Saddle.project_nonneg _ _ j
+  · unfold vec
+    by_cases hj : j < lam.length
+    · rw [List.getD_eq_getElem?_getD, List.getElem?_eq_getElem hj]
+      exact h _ (List.getElem_mem hj)
+    · rw [List.getD_eq_getElem?_getD, List.getElem?_eq_none (not_lt.mp hj)]
+      exact le_refl _
+
+theorem decision_cert_lam (P : Params) (O : Oracles) (s : State) :
+    (decision P O s).cert.lamHat = (decision P O s).lamEG ∨ (∃ k, (decision P O s).cert.lamHat = (O.lp k).lam) ∨
+    (∃ r, s.lpRes = some r ∧ (decision P O s).cert.lamHat = r.1.lam) := by
+  unfold decision
+  split
+  · left; rfl
+  · simp only []
+    split
+    · left; rfl
+    · right
+      rcases solveLP_ans P O _ with h | ⟨r, hr, h⟩
+      · left; exact ⟨_, congrArg LPAns.lam h⟩
+      · right; exact ⟨r, hr, congrArg LPAns.lam h⟩
+
+/-- every certifying multiplier recorded so far, and the cached LP multiplier, are entry-wise non-negative -/
+structure LamInv (s : State) : Prop where
+  certs_nonneg : ∀ e ∈ s.certs, ∀ x ∈ e.1.lamHat, 0 ≤ x
+  lp_nonneg : ∀ r, s.lpRes = some r → ∀ x ∈ r.1.lam, 0 ≤ x
+
+theorem lamInv_finish (P : Params) (O : Oracles) (hB : 0 < P.B) (he : ∀ x, 0 < P.e x)
+    (hP : 0 ≤ EGLoopGen.etaInit P.eta0 P.B) (hlpl : ∀ k, ∀ x ∈ (O.lp k).lam, 0 ≤ x) (s : State)
+    (hs : Inv P O s) (hgo : (s.done || decide (P.maxIter ≤ s.t)) = false) (hl : LamInv s) :
+    LamInv (finish P s (decision P O s)) := by
+  have hnext := inv_finish P O hB he hP s hs hgo
+  have hEG : ∀ x ∈ (decision P O s).lamEG, 0 ≤ x :=
+    (hnext.lamEG_good (decision P O s).lamEG (by
+      show (decision P O s).lamEG ∈ s.lamEGs ++ [(decision P O s).lamEG]
+      simp)).2.1
+  constructor
+  · intro e hmem
+    have hmem' : e ∈ s.certs ++ [((decision P O s).cert, (decision P O s).gap, (decision P O s).q)] := hmem
+    rcases List.mem_append.mp hmem' with h | h
+    · exact hl.certs_nonneg e h
+    · rw [List.mem_singleton] at h
+      rw [h]
+      show ∀ x ∈ (decision P O s).cert.lamHat, 0 ≤ x
+      rcases decision_cert_lam P O s with h1 | ⟨k, h1⟩ | ⟨r, hr, h1⟩
+      · rw [h1]; exact hEG
+      · rw [h1]; exact hlpl k
+      · rw [h1]; exact hl.lp_nonneg r hr
+  · intro r hr
+    have hr' : (decision P O s).s2.lpRes = some r := hr
+    rcases decision_lpRes P O s with ⟨k, g, h⟩ | h
+    · rw [h] at hr'; cases hr'; exact hlpl k
+    · rw [h] at hr'; exact hl.lp_nonneg r hr'
+
+theorem lamInv_runN (P : Params) (O : Oracles) (hB : 0 < P.B) (he : ∀ x, 0 < P.e x)
+    (hP : 0 ≤ EGLoopGen.etaInit P.eta0 P.B) (hlpl : ∀ k, ∀ x ∈ (O.lp k).lam, 0 ≤ x) :
+    ∀ n, LamInv (runN P O n)
+  | 0 => by constructor <;> simp [runN, initState]
+  | n + 1 => by
+    show LamInv (iter P O (runN P O n))
+    cases hgo : ((runN P O n).done || decide (P.maxIter ≤ (runN P O n).t))
+    · rw [iter_go P O _ hgo]
+      exact lamInv_finish P O hB he hP hlpl _ (inv_runN P O hB he hP n) hgo (lamInv_runN P O hB he hP hlpl n)
+    · rw [iter_stop P O _ hgo]; exact lamInv_runN P O hB he hP hlpl n
+
 end EGLoop
